@@ -54,6 +54,10 @@ MUTS = {
  "digest-uri-unchecked": ("src/mod_auth.c", "    if (!buffer_eq_slen(&r->target_orig, dp->ptr[e_uri], dp->len[e_uri])) {", "    if (0 && !buffer_eq_slen(&r->target_orig, dp->ptr[e_uri], dp->len[e_uri])) {", ["C16"]),
  "hpack-enc-evict": ("src/ls-hpack/lshpack.c", "    while (enc->hpe_cur_capacity > enc->hpe_max_capacity)\n        henc_drop_oldest_entry(enc);", "    while (enc->hpe_cur_capacity > enc->hpe_max_capacity + 40)\n        henc_drop_oldest_entry(enc);", ["C07"]),
  "reset-http-host": ("src/reqpool.c", "    r->http_host = NULL;\n", "", ["C08"]),
+ "linger-x10": ("src/h1.c", "#define HTTP_LINGER_TIMEOUT 5", "#define HTTP_LINGER_TIMEOUT 50", ["C13"]),
+ "userdir-exclude-ignored": ("src/mod_userdir.c", "    if (p->conf.exclude_user) {", "    if (0 && p->conf.exclude_user) {", ["C02"]),
+ "xff-mask-trusts-all": ("src/mod_extforward.c", "        if (0 == iplen || iplen >= sizeof(addrstr)) return 0;", "        if (0 == iplen || iplen >= sizeof(addrstr)) return 0;\n        if (iplen > 8) return 1;", ["C03"]),
+ "linger-forever": ("src/h1.c", "        if (cur_ts - con->close_timeout_ts > HTTP_LINGER_TIMEOUT)\n            changed = 1;", "        if (cur_ts - con->close_timeout_ts > HTTP_LINGER_TIMEOUT)\n            changed = 0;", ["C13"]),
  "else-link": ("src/configparser.y", "    C->prev = B;\n    B->next = C;\n    A = C;", "    C->prev = B;\n    A = C;", ["C14"]),
 }
 
